@@ -244,12 +244,13 @@ type EnvEvent struct {
 type capWriter struct{ w *World }
 
 func (c *capWriter) WriteEvent(e interface{}) { c.WriteEventWithTimestamp(e, time.Time{}) }
-func (c *capWriter) WriteEventWithTimestamp(e interface{}, _ time.Time) {
+func (c *capWriter) WriteEventWithTimestamp(e interface{}, ts time.Time) {
 	switch ev := e.(type) {
 	case *evpb.Ev_EnvironmentEvent:
 		c.w.EnvEvents = append(c.w.EnvEvents, EnvEvent{ev.EnvironmentId, ev.State, ev.Transition, ev.TransitionStep, ev.Message, ev.Error})
 	case *evpb.Ev_RunEvent:
 		c.w.RunEvents = append(c.w.RunEvents, ev)
+		c.w.RunEventTS = append(c.w.RunEventTS, ts)
 	}
 }
 func (c *capWriter) Close() {}
@@ -261,6 +262,7 @@ type World struct {
 	Life int
 	EnvEvents []EnvEvent
 	RunEvents []*evpb.Ev_RunEvent
+	RunEventTS []time.Time
 }
 
 // NewWorld starts a core (life 1) on top of master m. Call inside a controlled execution.
